@@ -191,6 +191,15 @@ pub fn check_case(c: &L2Case, prop: &str, rep: &mut Report) -> bool {
             }
         },
     }
+    // sinks that accept only part of each write must still receive exactly the output
+    if vs.is_empty() && e.v == Exp::Ok && c.api == "lzma2" && data.len() % 3 == 0 {
+        let mut sink = crate::io::FaultSink { short: [1usize, 5, 4096][data.len() / 3 % 3], ..Default::default() };
+        let mut rd = &data[..];
+        let r = crate::io::catch(|| lzma_rs::lzma2_decompress(&mut rd, &mut sink).is_ok());
+        if !matches!(r, crate::io::Caught::Done(true)) || sink.data != e.out {
+            vs.push(format!("with a sink that accepts only part of each write the delivered bytes are not the stream's output ({} of {} bytes)", sink.data.len(), e.out.len()));
+        }
+    }
     rep.count(&format!("class:{}", e.class));
     rep.eval(hash_of(&(c.data_hex.clone(), c.api.clone())), true);
     if !vs.is_empty() {
